@@ -49,6 +49,18 @@ var c12Cmds = []struct {
 	{consts.P9102AudioVideoControl, 0x0001},
 	{consts.P9205QueryResourceList, 0x1205},
 	{consts.P9206FileUploadInstructions, 0x1206},
+	// the server matches a response by its echoed serial, not by command/response pairing: every response type is also
+	// exercised with commands other than its usual partner
+	{consts.P8106QuerySpecifyParam, 0x0104},
+	{consts.P8105TerminalControl, 0x0001},
+	{consts.P8201QueryLocation, 0x0001},
+	{consts.P8300TextInfoDistribution, 0x0001},
+	{consts.P8803StorageMultimediaDataUpload, 0x0805},
+	{consts.P9201SendVideoRecordRequest, 0x1205},
+	{consts.P9202SendVideoRecordControl, 0x0001},
+	{consts.P9207FileUploadControl, 0x1206},
+	{consts.P8107QueryTerminalProperties, 0x0104},
+	{consts.P8202TmpLocationTrack, 0x1205},
 }
 
 func c12RespType(cmd uint16) uint16 {
